@@ -77,7 +77,10 @@ let () =
                b2s (sp && lo), b2s sp, (if lcp then b2s lo else "-"), Some (out, ids), lc
              end in
          (* the model *)
-         let radix_only = (mem_s = "0" || mem_s = "18446744073709551615") && algo <> 6 && algo <> 7 in
+         (* large inputs: the list-based model is only run where no large multikey-quicksort / insertion-sort call can
+            occur: no memory limit, or a limit of at least 1.5 MB (enough for the radix stacks of the generated cases) *)
+         let mem_big = String.length mem_s > 7 || (String.length mem_s = 7 && mem_s >= "1500000") in
+         let radix_only = (mem_s = "0" || mem_big) && algo <> 6 && algo <> 7 in
          let runm = n <= small || radix_only in
          let model, mspec, canon, exact, lcp0 =
            if not runm then "skip", "-", "-", "-", "-"
